@@ -149,6 +149,20 @@ CLAIMED = {
         "Trusted: TLC, the transcription, frozen tables and face centres; the nearest-face observation is a numeric "
         "projection with an ambiguity band of 1e-9.",
         "DESIGN.md 3.6, 5/C19"),
+    "C12": (
+        "TLC trace validation of calls to all exported functions against the error-code contract (H3Api.tla); aborts and sanitizer reports are unconsumable events",
+        "H3Api.tla states, per entry point, the documented argument domains and the code an out-of-domain scalar must "
+        "yield (E_RES_DOMAIN, E_LATLNG_DOMAIN, E_DOMAIN, E_OPTION_INVALID, E_RES_MISMATCH, E_MEMORY_BOUNDS), checked "
+        "total/non-contradictory by TLC. A generic driver calls all ~70 exported functions (62 call shapes incl. short "
+        "sequences feeding outputs forward) with random bits, valid cells with 1-3 mutations, wrong mode/reserved bits, "
+        "planted 7 digits, deleted-subsequence cells, edges/vertexes, extreme ints, special doubles and malformed "
+        "polygons, with guarded output buffers of exactly the documented size; 2x10^5 (thorough 3x10^6) calls in the "
+        "-UNDEBUG build (assert/NEVER/ALWAYS live) and 4x10^4 (1.5x10^6) under ASan+UBSan. TLC validates every event: "
+        "code in 0..15 and as documented, canaries intact, produced cells valid; an Abort or Crash event cannot be consumed.",
+        "Memory safety and undefined behaviour are OBSERVED by ASan/UBSan and canaries, not decided by TLA+ (DESIGN 6). "
+        "Buffer sizes are capped (k<=40, polygons <= ~20000 cells). This check found the empty-polygon / invalid-flags "
+        "acceptance in maxPolygonToCellsSizeExperimental (fixed in /repo commit 2e250c4b).",
+        "DESIGN.md 3.11, 5/C12"),
     "C03": (
         "TLC: cell counts by whole-resolution state-space exploration + integer round trip on the face lattice + TLC trace validation of centre round trips and enumerations",
         "The number of cells reachable in the TLA+ neighbour graph equals 2+120*7^r for r<=4 (thorough 5) and the BigNat "
